@@ -36,6 +36,16 @@ pub fn ints(s: &str) -> Option<Vec<i64>> {
     s.split(',').map(|x| x.parse::<i64>().ok()).collect()
 }
 
+/// an output polynomial pre-filled with junk (a function that leaves part of its output untouched, or returns early
+/// without writing it, is then seen; mirrors the 0xA5 pre-fill of output byte buffers)
+pub fn dirty_poly() -> Poly {
+    let mut p = Poly::default();
+    for (i, c) in p.coeffs.iter_mut().enumerate() {
+        *c = 7654321 - (i as i32) * 3;
+    }
+    p
+}
+
 pub fn poly(s: &str) -> Option<Poly> {
     let v = ints(s)?;
     if v.len() != 256 {
